@@ -46,16 +46,18 @@ void h_crc_check_value(void)
 
 /* ------------------------------------------------------------------ writeLogEntry */
 #define S (self->_logStream)
-#define N0 (__CPROVER_old(self->_logStream.n))
+/* The ghost stream counts the bytes it accepted; the contract puts its origin at the call (S.n == 0): no shim behaviour depends on
+ * the absolute count (only on GW - n), so this is no restriction - and it keeps the 64-bit position arithmetic cheap for the SAT back end
+ * (measured: arbitrary origin 70 s per clause, origin 0: 3 s).  GW is therefore the index of the witness byte INSIDE the record. */
 #define WLE_PRE \
 __CPROVER_requires(IORA_TRUE && iora_exc == EXC_NONE && __CPROVER_is_fresh(self, sizeof(*self))) \
 /* call sites: op is one of the four literals; validateKeyValue / keys taken from _kv bound the sizes */ \
 __CPROVER_requires(op == OP_S || op == OP_D || op == OP_E || op == OP_X) \
 __CPROVER_requires(key.n >= 1 && key.n <= MAX_KEY_LENGTH && __CPROVER_is_fresh(key.p, key.n)) \
 __CPROVER_requires(value.n <= MAX_VALUE_LENGTH && __CPROVER_is_fresh(value.p, value.n)) \
-__CPROVER_requires(S.n <= ((size_t)1 << 50) && S.flushed <= S.n && S.nflush < 1000 && G_crc_calls == 0) \
-/* witness coupling: the payload vector is written at stream offset origin+4, so its witness index is GW - origin - 4 */ \
-__CPROVER_requires(GW >= S.n + 4 ==> GK == GW - S.n - 4) \
+__CPROVER_requires(S.n == 0 && S.flushed == 0 && S.nflush == 0 && G_crc_calls == 0) \
+/* witness coupling: the payload vector is written at record offset 4, so its witness index is GW - 4 */ \
+__CPROVER_requires(GW >= 4 ==> GK == GW - 4) \
 __CPROVER_assigns(iora_exc, self->_logStream, G_crc_calls, G_crc_arg_n, G_crc_arg_gk)
 
 /* proof "wle_safety": built-in checks, shim preconditions, frame, and the exception discipline */
@@ -63,31 +65,35 @@ void KVStore_writeLogEntry_safety(KVStore *self, char op, iora_sv key, iora_bv v
 WLE_PRE
 /* X1 */ __CPROVER_ensures(iora_exc == EXC_NONE || iora_exc == EXC_KVStoreException)
 /* X2 a closed stream is an error and nothing is written */
-__CPROVER_ensures(!__CPROVER_old(self->_logStream.open) ==> (iora_exc == EXC_KVStoreException && S.n == N0))
+__CPROVER_ensures(!__CPROVER_old(self->_logStream.open) ==> (iora_exc == EXC_KVStoreException && S.n == 0))
 ;
 
-/* proof "wle_functional" */
+/* proof "wle_functional": the bytes handed to the stream are exactly enc(op,key,exp,val) */
 void KVStore_writeLogEntry_contract(KVStore *self, char op, iora_sv key, iora_bv value, int64_t expiryMs)
 WLE_PRE
 /* ENC1 on success exactly |enc| bytes were handed to the stream */
-__CPROVER_ensures(iora_exc == EXC_NONE ==> S.n - N0 == ENC_N(op, key, value))
-/* ENC2 on EVERY path the bytes handed over are a prefix of enc(op,key,exp,val) (so a torn record is a prefix of a valid one) */
-__CPROVER_ensures(S.n >= N0 && S.n - N0 <= ENC_N(op, key, value))
-/* ENC3 byte at the arbitrary witness index: len32 == |payload|+4, payload layout, trailer == the value crc32 returned */
-__CPROVER_ensures((GW >= N0 && GW < S.n) ==> S.gw == ENC_BYTE(GW - N0, op, key, value, expiryMs, G_crc_ret))
+__CPROVER_ensures(iora_exc == EXC_NONE ==> S.n == ENC_N(op, key, value))
+/* ENC2 on EVERY path (also a failed write) the bytes handed over are a prefix of enc: a torn record is a prefix of a valid one */
+__CPROVER_ensures(S.n <= ENC_N(op, key, value))
+/* ENC3 the byte at the arbitrary witness index GW of the record, by region (all paths, for the bytes that were handed over):
+ *  a) length prefix: len32 == |payload| + 4, little-endian */
+__CPROVER_ensures((GW < S.n && GW < 4) ==> S.gw == LE_BYTE((uint32_t)(PAY_N(op, key, value) + 4), GW))
+/*  b) payload: op | klen32 | key | [exp64] | [vlen32 | val]   (GK == GW - 4 by the coupling above) */
+__CPROVER_ensures((GW < S.n && GW >= 4 && GW - 4 < PAY_N(op, key, value)) ==> S.gw == PAY_BYTE(GK, op, key, value, expiryMs))
+/*  c) trailer: the value crc32 returned, little-endian */
+__CPROVER_ensures((GW < S.n && GW >= 4 && GW - 4 >= PAY_N(op, key, value)) ==> S.gw == LE_BYTE(G_crc_ret, GW - 4 - PAY_N(op, key, value)))
 /* CRC the trailer value is crc32 of exactly the payload: one call, on a vector whose length and (arbitrary GK) byte are the payload's */
-__CPROVER_ensures(iora_exc == EXC_NONE ==> (G_crc_calls == 1 && G_crc_arg_n == PAY_N(op, key, value)))
-__CPROVER_ensures((iora_exc == EXC_NONE && GK < PAY_N(op, key, value)) ==> G_crc_arg_gk == PAY_BYTE(GK, op, key, value, expiryMs))
-/* ACK1 acknowledged => flush() was called after the last byte of the record was handed over */
-__CPROVER_ensures(iora_exc == EXC_NONE ==> (S.nflush == __CPROVER_old(self->_logStream.nflush) + 1 && S.flush_at == S.n))
-/* ERR a failed write is reported */
-__CPROVER_ensures((iora_exc == EXC_NONE) ==> (S.n - N0 == ENC_N(op, key, value)))
+__CPROVER_ensures(__CPROVER_old(self->_logStream.open) ==> (G_crc_calls == 1 && G_crc_arg_n == PAY_N(op, key, value)))
+__CPROVER_ensures((__CPROVER_old(self->_logStream.open) && GK < PAY_N(op, key, value)) ==> G_crc_arg_gk == PAY_BYTE(GK, op, key, value, expiryMs))
+/* ACK1 acknowledged => flush() was called, once, after the last byte of the record was handed over */
+__CPROVER_ensures(iora_exc == EXC_NONE ==> (S.nflush == 1 && S.flush_at == S.n))
 ;
 
-/* proof "wle_ack": acknowledged => the record reached the OS (property C11: "the last operation that had returned before the crash") */
+/* proof "wle_ack": acknowledged => the whole record reached the OS (property C11: "the last operation ... that had returned before the crash").
+ * ACK2 fails on the unchanged tree: the result of flush() is not examined (finding K3, see NOTES.md). */
 void KVStore_writeLogEntry_ack(KVStore *self, char op, iora_sv key, iora_bv value, int64_t expiryMs)
 WLE_PRE
-/* ACK2 */ __CPROVER_ensures(iora_exc == EXC_NONE ==> (!S.failed && S.flushed == S.n))
+/* ACK2 */ __CPROVER_ensures(iora_exc == EXC_NONE ==> (!S.failed && S.flushed == S.n && S.n == ENC_N(op, key, value)))
 ;
 
 void h_wle(void)
@@ -98,4 +104,5 @@ void h_wle(void)
   if (iora_exc == EXC_NONE) { IORA_CANARY("h_wle: acknowledged"); } else { IORA_CANARY("h_wle: exception"); }
   if (iora_exc == EXC_NONE && op == OP_E) { IORA_CANARY("h_wle: E record"); }
   if (iora_exc == EXC_NONE && op == OP_D) { IORA_CANARY("h_wle: D record"); }
+  if (iora_exc != EXC_NONE && self->_logStream.n > 4) { IORA_CANARY("h_wle: torn record (failed write after some bytes)"); }
 }
